@@ -111,7 +111,49 @@ def run_routing(ctx):
         ctx.ok("requeue", "async-pipeline-present", nontrivial=False)
 
 
+def merge_gate_semantics(h):
+    """how a per-stream entry decides whether an event passes a Merge source: 'any' (accepted if some source of the event's
+    type passes its filter), 'first' (only the first source of that type is consulted), or None (no merge gate)"""
+    for x in H.walk(h["body"]):
+        if x.get("k") == "if" and H.strip(x["cond"]).get("k") == "letcond":
+            pat = H.strip(x["cond"])["pat"]
+            if "RuntimeSource::Merge" not in H.pat_str(pat):
+                continue
+            blk = x["then"]
+            loops = [y for y in H.walk(blk) if y.get("k") == "for"]
+            flagged = [a for f in loops for a in H.walk(f["body"]) if a.get("k") == "assign" and H.show(a["r"]) == "true"]
+            meths = [y["method"] for y in H.walk(blk) if y.get("k") == "mcall"]
+            if loops and flagged:
+                return "any", x["sp"]
+            if "any" in meths and "find" not in meths:
+                return "any", x["sp"]
+            if any(m in meths for m in ("find", "position", "next", "first", "find_map")):
+                return "first", x["sp"]
+            return "?", x["sp"]
+    return None, None
+
+
+def run_merge_gate(ctx):
+    F = ctx.facts()
+    sibs = {"process_stream_with_functions (async paths)": E + "process_stream_with_functions", "process_stream_sync (sync batch path)": E + "process_stream_sync"}
+    got = {}
+    for label, fn in sibs.items():
+        h = ctx.need_hir(fn, rule="merge-gate")
+        got[label] = merge_gate_semantics(h)
+    vals = {v[0] for v in got.values()}
+    for label, (sem, sp) in got.items():
+        key = label.split(" ")[0]
+        if sem is None:
+            ctx.violation("merge-gate", key, "%s has no gate for RuntimeSource::Merge while its sibling has: merged streams accept different events on the two paths" % label)
+        elif sem != "any":
+            ctx.violation("merge-gate", key, "%s consults %s for a merged stream; the sibling entry accepts an event when ANY merge source of its type passes its filter — events passing only a later same-typed source are dropped on this path" % (label, "only the first source of the event's type" if sem == "first" else "sources in an unrecognised way"), site=sp)
+        else:
+            ctx.ok("merge-gate", key, "accepts if any same-typed merge source passes", site=sp)
+    ctx.sample({"merge_gate": {k: v[0] for k, v in got.items()}})
+
+
 def run(ctx):
+    ctx.guard("merge-gate", lambda: run_merge_gate(ctx))
     ctx.guard("entry-reach", lambda: run_reach(ctx))
     ctx.guard("chain-depth", lambda: run_consts(ctx))
     ctx.guard("requeue", lambda: run_routing(ctx))
